@@ -21,6 +21,22 @@ Theorem C16_hash_respects_eq : forall (leaf : Type) (hp : hparams) (h : leaf -> 
 Proof. exact hash_respects_eq. Qed.
 Print Assumptions C16_hash_respects_eq.
 
+(* the hash (and ==) of a value does not depend on the OWNERSHIP FORM of the smart pointers in it: made by make_shared /
+   make_unique, a copy of another shared_ptr, adopted from new, a non-owning alias (aliasing constructor with an empty
+   owner: non-null, use_count() == 0), an owning alias, converted from a unique_ptr, moved — at any depth, any number
+   of pointers at once (f maps every old form to any new one).  No premise at all *)
+Theorem C16_hash_does_not_depend_on_ownership_form : forall (leaf : Type) (hp : hparams) (h : leaf -> N) (f : own -> own) (x : value leaf),
+  hash leaf hp h (retag f x) = hash leaf hp h x /\
+  forall (leqb : leaf -> leaf -> bool) (y : value leaf), veqb leaf leqb (retag f x) y = veqb leaf leqb x y.
+Proof. intros leaf hp h f x. split; [exact (hash_retag leaf hp h f x) | intros leqb y; exact (veqb_retag_l leaf leqb f x y)]. Qed.
+Print Assumptions C16_hash_does_not_depend_on_ownership_form.
+
+(* two values that are the same once all ownership forms are forgotten (each pointer may differ independently) hash equal *)
+Theorem C16_hash_same_up_to_ownership : forall (leaf : Type) (hp : hparams) (h : leaf -> N) (x y : value leaf),
+  erase_own x = erase_own y -> hash leaf hp h x = hash leaf hp h y.
+Proof. exact hash_same_up_to_ownership. Qed.
+Print Assumptions C16_hash_same_up_to_ownership.
+
 (* every hash is a 64-bit word: the model's explicit `mod 2^64` arithmetic never leaves std::size_t *)
 Theorem C16_hash_is_word : forall (leaf : Type) (hp : hparams) (h : leaf -> N), hp_ok hp = true ->
   forall x : value leaf, (hash leaf hp h x < 2 ^ 64)%N.
@@ -227,6 +243,12 @@ Example C16_ex_valueless :
   vltb N N.ltb VValueless (VVariant 0 (VLeaf 0)) = true /\ vltb N N.ltb (VVariant 0 (VLeaf 0)) VValueless = false /\
   hash N boost nh (VTuple [VLeaf 1; VValueless]) = hash N boost nh (VTuple [VLeaf 1; VLeaf 0]) /\
   cmp_shape N (VObj [VValueless; VLeaf 1]) (VObj [VVariant 1 (VLeaf 5); VLeaf 1]) = true.
+Proof. vm_compute. repeat split. Qed.
+(* a non-owning alias (aliasing constructor, empty owner) hashes like its pointee and like an owning pointer to it, alone
+   and as a tuple component; the two are == *)
+Example C16_ex_ownership :
+  hash N boost nh (VPtr OwnAlias (VLeaf 5)) = 5 /\ hash N boost nh (VPtr OwnMake (VLeaf 5)) = 5 /\
+  hash N boost nh (VTuple [VPtr OwnAlias (VLeaf 5); VLeaf 1]) = hash N boost nh (VTuple [VPtr OwnCopy (VLeaf 5); VLeaf 1]) /\ veqb N N.eqb (VPtr OwnAlias (VLeaf 5)) (VPtr OwnMake (VLeaf 5)) = true /\ erase_own (VPair (VPtr OwnAlias (VLeaf 5)) (VPtr OwnNew (VLeaf 6))) = erase_own (VPair (VPtr OwnFromUnique (VLeaf 5)) (VPtr OwnMoved (VLeaf 6))).
 Proof. vm_compute. repeat split. Qed.
 (* with the constants in use NOW (whatever they are): structure of the computation, no literal words *)
 Example C16_ex_instance :
